@@ -1,2 +1,592 @@
-// Package c01 binds the TLA+ specification of property C01 to the Go code.
+// Package c01 feeds TLC-enumerated abstract inputs (spec/text/Tokens.tla),
+// concretised in several ways, and seeded random mutations of them to EVERY
+// exported text/bytes/address-consuming function of netutil, hostsfile,
+// urlutil, stringutil and timeutil, and checks the one observable C01 names:
+// the call returns (no panic, no hang).
 package c01
+
+import (
+	"bytes"
+	"encoding/json"
+	"fmt"
+	"net"
+	"net/netip"
+	"net/url"
+	"os"
+	"runtime"
+	"strconv"
+	"strings"
+	"sync"
+	"sync/atomic"
+	"time"
+	"unicode/utf8"
+
+	"github.com/AdguardTeam/golibs/hostsfile"
+	"github.com/AdguardTeam/golibs/netutil"
+	"github.com/AdguardTeam/golibs/netutil/urlutil"
+	"github.com/AdguardTeam/golibs/stringutil"
+	"github.com/AdguardTeam/golibs/timeutil"
+
+	"verifharness/internal/vh"
+)
+
+func init() {
+	vh.Register("c01", "feed", feedCmd)
+	vh.Register("c01", "fuzz", fuzzCmd)
+}
+
+func rep(c string, n int) string { return strings.Repeat(c, n) }
+
+// reps maps a token to its concrete representatives.
+var reps = map[string][]string{
+	"0": {"0"}, "d": {"1", "9", "5"}, "x": {"a", "f", "c"}, "l": {"g", "z", "q"}, "U": {"A", "Z", "F"},
+	"SP": {" "}, "TAB": {"\t"}, "CR": {"\r"}, "NL": {"\n"}, "u2": {"é", "ß", "İ"}, "u3": {"€", "K", "中"},
+	"FW.": {"．", "。", "｡"}, "BAD": {"\xff", "\xc0", "\xfe"}, "TRUNC": {"\xc3", "\xe2\x82", "\xf0\x9f"},
+	"CTL": {"\x01", "\x7f", "\x1b"}, "NUL": {"\x00"}, "!": {"!", "*", "~"}, "QUOTE": {"\"", "'", "`"}, "BSL": {"\\"},
+	"RUN15": {rep("a", 15)}, "RUN16": {rep("b", 16)}, "RUN62": {rep("c", 62)}, "RUN63": {rep("a", 63), rep("1", 63), rep("-", 63)},
+	"RUN64": {rep("a", 64), rep("0", 64)}, "RUN189": {rep("a", 63) + "." + rep("b", 63) + "." + rep("c", 61)},
+	"RUN254": {rep("a", 254), rep("a.", 127), rep("1.", 127)},
+	// ARPA label kinds.
+	"o7": {"7", "1", "9"}, "o0": {"0"}, "o07": {"07", "01"}, "o00": {"00", "000"}, "o256": {"256", "999", "300"},
+	"o100": {"100", "199", "249"}, "o255": {"255"}, "na": {"a", "f", "c"}, "nA": {"A", "F"}, "n0": {"0", "5"},
+	"ab": {"ab", "1a", "ff", "10"}, "g": {"g", "x", "z"}, "dash-": {"-", "a-", "-a", "_"}, "L63": {rep("a", 63), rep("7", 63)},
+	"L64": {rep("a", 64)}, "uK": {"K", "é", "ı"},
+	// Misc.
+	"micro-s": {"µs", "μs"}, "DEL": {"\x7f"}, "cmt": {"comment text", "# again"}, "u2name": {"пример.рф", "bücher.example"},
+	"bad_name!": {"bad_name!", "-x-.", "a..b"}, "name": {"name", "host", "a"}, "na.me": {"na.me", "sub.host.example", "a.b.c.d"},
+	"Name": {"Name", "HOST.Example"}, "user": {"user", "u%20ser"}, "pw": {"pw", "p:w", "p@w"}, "a b": {"a b", "a%20b"},
+	"h": {"h", "example.org", "localhost"},
+}
+
+var suffixReps = map[string]string{
+	"iN-addr.arpa(dotless-i)": "ın-addr.arpa", "in-addr.arpa(dotted-I)": "İn-addr.arpa", "ip6.arpa(kelvin)": "İp6.arpa",
+}
+
+func tok(t string, variant int) string {
+	if r, ok := reps[t]; ok {
+		return r[variant%len(r)]
+	}
+	return t
+}
+
+type vec struct {
+	F      string   `json:"f"`
+	Toks   []string `json:"toks"`
+	Suffix string   `json:"suffix"`
+	Run    string   `json:"run"`
+}
+
+func runText(r string, variant int) string {
+	hex := "0123456789abcdef"
+	mk := func(n int, f func(i int) string) string {
+		p := make([]string, n)
+		for i := range p {
+			p[i] = f(i)
+		}
+		return strings.Join(p, ".")
+	}
+	nib := func(i int) string { return string(hex[(i*7+variant)%16]) }
+	switch {
+	case strings.HasPrefix(r, "nibnodot"):
+		s := mk(32, nib)
+		return s[:31] + s[32:]
+	case strings.HasPrefix(r, "nibbad"):
+		return mk(32, func(i int) string {
+			if i == 13+variant {
+				return "g"
+			}
+			return nib(i)
+		})
+	case r == "nib32upper":
+		return strings.ToUpper(mk(32, nib))
+	case strings.HasPrefix(r, "nib"):
+		n, _ := strconv.Atoi(r[3:])
+		return mk(n, nib)
+	case strings.HasPrefix(r, "oct"):
+		n, _ := strconv.Atoi(r[3:])
+		return mk(n, func(i int) string { return strconv.Itoa((i*37 + variant*101) % 256) })
+	}
+	return ""
+}
+
+// concretise builds the concrete string of an abstract vector.
+func concretise(v *vec, variant int) string {
+	switch v.F {
+	case "arpa", "arparun":
+		var parts []string
+		for i, t := range v.Toks {
+			parts = append(parts, tok(t, variant+i))
+		}
+		if v.Run != "" {
+			parts = append(parts, runText(v.Run, variant))
+		}
+		suf := v.Suffix
+		if s, ok := suffixReps[suf]; ok {
+			suf = s
+		}
+		if suf != "" {
+			parts = append(parts, suf)
+		}
+		return strings.Join(parts, ".")
+	default:
+		var b strings.Builder
+		for i, t := range v.Toks {
+			b.WriteString(tok(t, variant+i))
+		}
+		return b.String()
+	}
+}
+
+// ------------------------------------------------------------------ battery
+
+type state struct {
+	fn    atomic.Pointer[string]
+	input atomic.Pointer[string]
+	seq   atomic.Int64
+}
+
+type feeder struct {
+	res    *vh.Result
+	calls  atomic.Int64
+	inputs atomic.Int64
+	panics atomic.Int64
+}
+
+var someAddrs = []netip.Addr{netip.MustParseAddr("1.2.3.4"), netip.MustParseAddr("::1"), netip.MustParseAddr("::ffff:1.2.3.4"),
+	netip.MustParseAddr("fe80::1%eth0"), {}}
+
+// call runs f under recover and records a panic as a mismatch.
+func (fd *feeder) call(st *state, name, in string, f func()) {
+	st.fn.Store(&name)
+	st.seq.Add(1)
+	fd.calls.Add(1)
+	defer func() {
+		if v := recover(); v != nil {
+			fd.panics.Add(1)
+			buf := make([]byte, 2048)
+			buf = buf[:runtime.Stack(buf, false)]
+			fd.res.Mismatch(fmt.Sprintf("%s(%s)", name, strconv.QuoteToASCII(clip(in))), fmt.Sprintf("panic: %v", v),
+				map[string]any{"input_quoted": strconv.QuoteToASCII(in), "stack": string(buf)})
+		}
+	}()
+	f()
+}
+
+func clip(s string) string {
+	if len(s) > 160 {
+		return s[:80] + "…(" + strconv.Itoa(len(s)) + " bytes)…" + s[len(s)-40:]
+	}
+	return s
+}
+
+type discardSet struct{}
+
+func (discardSet) Add(*hostsfile.Record)               {}
+func (discardSet) HandleInvalid(string, []byte, error) {}
+
+// feedString calls every function that accepts text.
+func (fd *feeder) feedString(st *state, s string) {
+	fd.inputs.Add(1)
+	st.input.Store(&s)
+	c := func(name string, f func()) { fd.call(st, name, s, f) }
+	b := []byte(s)
+
+	c("netutil.ExtractReversedAddr", func() { _, _ = netutil.ExtractReversedAddr(s) })
+	c("netutil.IPFromReversedAddr", func() { _, _ = netutil.IPFromReversedAddr(s) })
+	c("netutil.PrefixFromReversedAddr", func() { _, _ = netutil.PrefixFromReversedAddr(s) })
+	c("netutil.IsValidHostname", func() { _ = netutil.IsValidHostname(s) })
+	c("netutil.IsValidHostnameLabel", func() { _ = netutil.IsValidHostnameLabel(s) })
+	c("netutil.IsValidIPPortString", func() { _ = netutil.IsValidIPPortString(s) })
+	c("netutil.IsValidIPString", func() { _ = netutil.IsValidIPString(s) })
+	c("netutil.ParseHostPort", func() { _, _ = netutil.ParseHostPort(s) })
+	c("netutil.ParseIP", func() { _, _ = netutil.ParseIP(s) })
+	c("netutil.ParseIPv4", func() { _, _ = netutil.ParseIPv4(s) })
+	c("netutil.SplitHost", func() { _, _ = netutil.SplitHost(s) })
+	c("netutil.SplitHostPort", func() { _, _, _ = netutil.SplitHostPort(s) })
+	c("netutil.ValidateDomainName", func() { errStr(netutil.ValidateDomainName(s)) })
+	c("netutil.ValidateDomainNameLabel", func() { errStr(netutil.ValidateDomainNameLabel(s)) })
+	c("netutil.ValidateHostname", func() { errStr(netutil.ValidateHostname(s)) })
+	c("netutil.ValidateHostnameLabel", func() { errStr(netutil.ValidateHostnameLabel(s)) })
+	c("netutil.ValidateSRVDomainName", func() { errStr(netutil.ValidateSRVDomainName(s)) })
+	c("netutil.ValidateServiceNameLabel", func() { errStr(netutil.ValidateServiceNameLabel(s)) })
+	c("netutil.ValidateTLDLabel", func() { errStr(netutil.ValidateTLDLabel(s)) })
+	c("netutil.JoinHostPort", func() { _ = netutil.JoinHostPort(s, 53) })
+	c("netutil.HostPort.String", func() {
+		hp := netutil.HostPort{Host: s, Port: 65535}
+		_ = hp.String()
+		_, _ = hp.MarshalText()
+		_ = hp.Clone()
+	})
+	c("netutil.HostPort.UnmarshalText", func() { hp := &netutil.HostPort{}; errStr(hp.UnmarshalText(b)) })
+	c("netutil.Prefix.UnmarshalText", func() { p := &netutil.Prefix{}; errStr(p.UnmarshalText(b)) })
+	c("hostsfile.Record.UnmarshalText", func() { r := &hostsfile.Record{}; errStr(r.UnmarshalText(b)) })
+	c("hostsfile.Parse", func() {
+		if len(s) < 60000 {
+			errStr(hostsfile.Parse(discardSet{}, strings.NewReader(s), nil))
+			errStr(hostsfile.Parse(hostsfile.FuncSet(func(*hostsfile.Record) {}), strings.NewReader(s), make([]byte, 0, 16)))
+		}
+	})
+	c("hostsfile.NewDefaultStorage", func() {
+		if len(s) < 60000 {
+			st, err := hostsfile.NewDefaultStorage(strings.NewReader(s))
+			errStr(err)
+			if st != nil {
+				_ = st.ByName(s)
+				_ = st.Equal(st)
+			}
+		}
+	})
+	c("urlutil.Parse", func() {
+		u, err := urlutil.Parse(s)
+		errStr(err)
+		if u != nil {
+			_, _ = u.MarshalText()
+			_, _ = json.Marshal(u)
+			_ = urlutil.RedactUserinfo(&u.URL)
+			errStr(urlutil.ValidateFileURL(&u.URL))
+			errStr(urlutil.ValidateGRPCURL(&u.URL))
+			errStr(urlutil.ValidateHTTPURL(&u.URL))
+			_ = netutil.CloneURL(&u.URL)
+			ue := &url.Error{Op: "Get", URL: u.String(), Err: os.ErrNotExist}
+			urlutil.RedactUserinfoInURLError(&u.URL, ue)
+			urlutil.RedactUserinfoInURLError(&u.URL, os.ErrNotExist)
+			urlutil.RedactUserinfoInURLError(&u.URL, nil)
+		}
+	})
+	c("urlutil.URL.UnmarshalText", func() { u := &urlutil.URL{}; errStr(u.UnmarshalText(b)) })
+	c("urlutil.URL.UnmarshalJSON", func() {
+		u := &urlutil.URL{}
+		errStr(u.UnmarshalJSON(b))
+		errStr(u.UnmarshalJSON([]byte(`"` + s + `"`)))
+		q, _ := json.Marshal(s)
+		errStr(json.Unmarshal(q, u))
+	})
+	c("urlutil.IsValidGRPCURLScheme", func() { _ = urlutil.IsValidGRPCURLScheme(s); _ = urlutil.IsValidHTTPURLScheme(s) })
+	c("stringutil.ContainsFold", func() {
+		_ = stringutil.ContainsFold(s, s)
+		for _, cut := range []int{1, len(s) / 2, len(s) - 1} {
+			if cut > 0 && cut < len(s) {
+				_ = stringutil.ContainsFold(s, s[cut:])
+				_ = stringutil.ContainsFold(s, s[:cut])
+				_ = stringutil.ContainsFold(s[cut:], s)
+				_ = stringutil.ContainsFold(s+s[:cut], s[cut:]+"k")
+			}
+		}
+		_ = stringutil.ContainsFold(s, "")
+		_ = stringutil.ContainsFold("", s)
+		_ = stringutil.ContainsFold(s, "K")
+	})
+	c("stringutil.SplitTrimmed", func() {
+		for _, sep := range []string{",", " ", "", ".", s} {
+			_ = stringutil.SplitTrimmed(s, sep)
+		}
+		_ = stringutil.CloneSliceOrEmpty(strings.Split(s, "."))
+		_ = stringutil.FilterOut(strings.Split(s, "."), func(x string) bool { return x == "" })
+	})
+	c("timeutil.Duration.UnmarshalText", func() { var d timeutil.Duration; errStr(d.UnmarshalText(b)) })
+	c("netutil.IsValidHostRune", func() {
+		for _, r := range s {
+			_ = netutil.IsValidHostInnerRune(r)
+			_ = netutil.IsValidHostOuterRune(r)
+		}
+	})
+	// Functions with documented preconditions: only on inputs that meet them.
+	if netutil.ValidateDomainName(s) == nil && !strings.HasSuffix(s, ".") {
+		c("netutil.Subdomains", func() {
+			subs := netutil.Subdomains(s)
+			for _, t := range subs {
+				_ = netutil.IsSubdomain(s, t)
+				_ = netutil.IsImmediateSubdomain(s, t)
+				_ = netutil.IsSubdomain(t, s)
+			}
+		})
+	}
+	if a, err := netip.ParseAddr(s); err == nil {
+		c("netutil.IsLocallyServed(addr)", func() { fd.feedAddr(a) })
+	}
+	if p, err := netip.ParsePrefix(s); err == nil {
+		c("netutil.SliceSubnetSet.Contains", func() {
+			set := netutil.SliceSubnetSet{p, {}}
+			for _, a := range someAddrs {
+				_ = set.Contains(a)
+			}
+			_ = netutil.UnembedPrefixes([]netutil.Prefix{{Prefix: p}, {}})
+			np := netutil.Prefix{Prefix: p}
+			_, _ = np.MarshalText()
+		})
+	}
+	// The raw bytes as address-like slices.
+	fd.feedBytes(st, b)
+}
+
+func (fd *feeder) feedAddr(a netip.Addr) {
+	_ = netutil.IsLocallyServed(a)
+	_ = netutil.IsSpecialPurpose(a)
+	for _, o := range someAddrs {
+		_ = netutil.PreferIPv4(a, o)
+		_ = netutil.PreferIPv6(o, a)
+	}
+	rec := &hostsfile.Record{Addr: a, Names: []string{"x", ""}}
+	_, _ = rec.MarshalText()
+}
+
+type customAddr struct{ s string }
+
+func (c customAddr) Network() string { return "custom" }
+func (c customAddr) String() string  { return c.s }
+
+// feedBytes uses b (clipped to every interesting length) as net.IP, IPMask and
+// HardwareAddr values.
+func (fd *feeder) feedBytes(st *state, b []byte) {
+	in := string(b)
+	c := func(name string, f func()) { fd.call(st, name, in, f) }
+	lens := []int{0, 1, 3, 4, 5, 6, 8, 15, 16, 17, 20, 21}
+	for _, n := range lens {
+		if n > len(b) {
+			break
+		}
+		ip := net.IP(b[:n:n])
+		var nilIP net.IP
+		if n == 0 {
+			ip = nilIP
+		}
+		c("netutil.IPToAddr", func() {
+			_, _ = netutil.IPToAddr(ip, netutil.AddrFamilyIPv4)
+			_, _ = netutil.IPToAddr(ip, netutil.AddrFamilyIPv6)
+			_, _ = netutil.IPToAddr(net.IP{}, netutil.AddrFamilyIPv4)
+		})
+		c("netutil.IPToAddrNoMapped", func() { _, _ = netutil.IPToAddrNoMapped(ip) })
+		c("netutil.IPToReversedAddr", func() { _, _ = netutil.IPToReversedAddr(ip) })
+		c("netutil.ValidateIP", func() { errStr(netutil.ValidateIP(ip)) })
+		c("netutil.CloneIPs", func() { _ = netutil.CloneIPs([]net.IP{ip, nil, {}}); _ = netutil.CloneIPs(nil) })
+		c("netutil.ValidateMAC", func() { errStr(netutil.ValidateMAC(net.HardwareAddr(ip))) })
+		for _, m := range lens {
+			if m > len(b) {
+				break
+			}
+			mask := net.IPMask(b[len(b)-m:])
+			if m == 0 {
+				mask = nil
+			}
+			c("netutil.IPNetToPrefix", func() {
+				_, _ = netutil.IPNetToPrefix(&net.IPNet{IP: ip, Mask: mask}, netutil.AddrFamilyIPv4)
+				_, _ = netutil.IPNetToPrefix(&net.IPNet{IP: ip, Mask: mask}, netutil.AddrFamilyIPv6)
+				_, _ = netutil.IPNetToPrefixNoMapped(&net.IPNet{IP: ip, Mask: mask})
+			})
+		}
+		c("netutil.NetAddrToAddrPort", func() {
+			for _, a := range []net.Addr{&net.TCPAddr{IP: ip, Port: 1, Zone: "z"}, &net.UDPAddr{IP: ip, Port: 65535}, &net.IPAddr{IP: ip}, customAddr{in}} {
+				_ = netutil.NetAddrToAddrPort(a)
+				_, _ = netutil.IPAndPortFromAddr(a)
+			}
+		})
+		if a, ok := netip.AddrFromSlice(ip); ok {
+			c("netutil.IsLocallyServed(bytes)", func() { fd.feedAddr(a); fd.feedAddr(a.WithZone("z")); fd.feedAddr(a.Unmap()) })
+		}
+	}
+	if len(b) >= 8 {
+		c("timeutil.Duration.String", func() {
+			var n int64
+			for _, x := range b[:8] {
+				n = n<<8 | int64(x)
+			}
+			d := timeutil.Duration(n)
+			_ = d.String()
+			t, _ := d.MarshalText()
+			var d2 timeutil.Duration
+			errStr(d2.UnmarshalText(t))
+		})
+	}
+}
+
+func errStr(err error) {
+	if err != nil {
+		_ = err.Error()
+	}
+}
+
+// ------------------------------------------------------------------ commands
+
+// run executes work over n items on all CPUs with a hang watchdog.
+func (fd *feeder) run(items <-chan string) {
+	var wg sync.WaitGroup
+	nw := runtime.NumCPU()
+	states := make([]*state, nw)
+	done := make(chan struct{})
+	for w := 0; w < nw; w++ {
+		states[w] = &state{}
+		wg.Add(1)
+		go func(st *state) {
+			defer wg.Done()
+			for s := range items {
+				fd.feedString(st, s)
+			}
+			st.input.Store(nil)
+		}(states[w])
+	}
+	// Watchdog: a worker that stays inside one call for 20 s is a hang.
+	go func() {
+		last := make([]int64, nw)
+		since := make([]time.Time, nw)
+		for i := range since {
+			since[i] = time.Now()
+		}
+		t := time.NewTicker(500 * time.Millisecond)
+		defer t.Stop()
+		for {
+			select {
+			case <-done:
+				return
+			case <-t.C:
+				for i, st := range states {
+					if s := st.seq.Load(); s != last[i] {
+						last[i], since[i] = s, time.Now()
+					} else if in := st.input.Load(); in != nil && time.Since(since[i]) > 20*time.Second {
+						fn := st.fn.Load()
+						fd.res.Mismatch(fmt.Sprintf("%s(%s)", *fn, strconv.QuoteToASCII(clip(*in))), "call did not return within 20 s (hang)",
+							map[string]any{"input_quoted": strconv.QuoteToASCII(*in)})
+						_ = fd.res.Close(map[string]any{"inputs": fd.inputs.Load(), "calls": fd.calls.Load(), "hang": 1})
+						os.Exit(0)
+					}
+				}
+			}
+		}
+	}()
+	wg.Wait()
+	close(done)
+}
+
+// feedCmd: vh c01 feed <vectors> <result> <trace> <variants>
+func feedCmd(args []string) error {
+	if len(args) != 4 {
+		return fmt.Errorf("usage: feed <vectors> <result> <trace> <variants>")
+	}
+	nvar, _ := strconv.Atoi(args[3])
+	res, err := vh.NewResult(args[0+1])
+	if err != nil {
+		return err
+	}
+	fd := &feeder{res: res}
+	items := make(chan string, 4096)
+	perFamily := map[string]int{}
+	dd := vh.NewDedup()
+	seed := int(vh.Seed())
+	var readErr error
+	go func() {
+		defer close(items)
+		readErr = vh.ForEachVector(args[0], func(_ int, raw []byte) error {
+			var v vec
+			if err := json.Unmarshal(raw, &v); err != nil {
+				return err
+			}
+			for k := 0; k < nvar; k++ {
+				s := concretise(&v, seed+k)
+				if !dd.Add([]byte(s)) {
+					continue
+				}
+				perFamily[v.F]++
+				if perFamily[v.F]%20011 == 3 {
+					res.Sample(map[string]any{"family": v.F, "tokens": v.Toks, "suffix": v.Suffix, "run": v.Run, "concrete": strconv.QuoteToASCII(clip(s))})
+				}
+				items <- s
+			}
+			return nil
+		})
+	}()
+	fd.run(items)
+	if readErr != nil {
+		return readErr
+	}
+	return fd.finish(args[2], perFamily, dd.N())
+}
+
+func (fd *feeder) finish(tracePath string, perFamily map[string]int, distinct int) error {
+	tr, err := vh.NewTrace(tracePath)
+	if err != nil {
+		return err
+	}
+	out := []string{"returned"}
+	if fd.panics.Load() > 0 {
+		out = append(out, "panicked")
+	}
+	for f, n := range perFamily {
+		tr.Emit(map[string]any{"family": f, "inputs": n, "calls": fd.calls.Load(), "outcomes": out})
+	}
+	if err := tr.Close(); err != nil {
+		return err
+	}
+	return fd.res.Close(map[string]any{"inputs": fd.inputs.Load(), "calls": fd.calls.Load(), "distinct_inputs": distinct, "families": len(perFamily)})
+}
+
+// fuzzCmd: vh c01 fuzz <result> <trace> <n>  — seeded random byte strings and
+// mutations of grammar-shaped seeds (binding T).
+func fuzzCmd(args []string) error {
+	if len(args) != 3 {
+		return fmt.Errorf("usage: fuzz <result> <trace> <n>")
+	}
+	n, _ := strconv.Atoi(args[2])
+	res, err := vh.NewResult(args[0])
+	if err != nil {
+		return err
+	}
+	fd := &feeder{res: res}
+	rng := vh.Rand(1)
+	seeds := []string{"1.2.3.4", "255.255.255.255", "::1", "1:2:3:4:5:6:7:8", "::ffff:1.2.3.4", "fe80::1%eth0", "[::1]:53", "1.2.3.4:65535",
+		"4.3.2.1.in-addr.arpa", "1.0.0.0.0.0.0.0.0.0.0.0.0.0.0.0.0.0.0.0.0.0.0.0.0.0.0.0.0.0.0.0.ip6.arpa", "b.a.ip6.arpa", "10.in-addr.arpa.",
+		"example.org", "_dns._tcp.example.org", "xn--e1afmkfd.xn--p1ai", "пример.рф", "a." + rep("b", 63) + ".c", "1h2m3.5s", "-1.5ms", "2562047h47m16.854775807s",
+		"http://user:pw@host:80/p%2Fa?q=1&r=<2>#f", "file:///etc/hosts", "//host/path", "mailto:a@b", "127.0.0.1 localhost # comment", "::1\tip6-localhost ip6-loopback",
+		"1.2.3.4/24", "::/0", "192.168.0.1/33", "host:port", "[fe80::1%25eth0]:443"}
+	alphabet := []string{".", ":", "%", "[", "]", "#", " ", "\t", "\r", "\n", "/", "@", "-", "_", "0", "1", "9", "a", "f", "g", "Z", "é", "İ", "K", "．",
+		"\xff", "\xc3", "\x00", "\x7f", "255", "256", "65536", "::", "..", "in-addr.arpa", "ip6.arpa", "xn--", "%25", "\\", "\"", "&", "<"}
+	items := make(chan string, 4096)
+	dd := vh.NewDedup()
+	go func() {
+		defer close(items)
+		for i := 0; i < n; i++ {
+			var s string
+			switch rng.IntN(10) {
+			case 0: // raw random bytes
+				b := make([]byte, rng.IntN(40))
+				for j := range b {
+					b[j] = byte(rng.IntN(256))
+				}
+				s = string(b)
+			case 1: // long inputs around the DNS limits
+				s = strings.Repeat(alphabet[rng.IntN(len(alphabet))], 60+rng.IntN(250))
+			default:
+				s = seeds[rng.IntN(len(seeds))]
+				for m := 1 + rng.IntN(3); m > 0; m-- {
+					pos := 0
+					if len(s) > 0 {
+						pos = rng.IntN(len(s) + 1)
+					}
+					a := alphabet[rng.IntN(len(alphabet))]
+					switch rng.IntN(4) {
+					case 0:
+						s = s[:pos] + a + s[pos:]
+					case 1:
+						if pos < len(s) {
+							_, w := utf8.DecodeRuneInString(s[pos:])
+							s = s[:pos] + s[pos+w:]
+						}
+					case 2:
+						if pos < len(s) {
+							s = s[:pos] + a + s[pos+1:]
+						}
+					default:
+						s = s[:pos] + s[pos/2:]
+					}
+				}
+			}
+			if dd.Add([]byte(s)) {
+				if dd.N()%30011 == 5 {
+					res.Sample(map[string]any{"family": "fuzz", "concrete": strconv.QuoteToASCII(clip(s))})
+				}
+				items <- s
+			}
+		}
+	}()
+	fd.run(items)
+	_ = bytes.MinRead
+	return fd.finish(args[1], map[string]int{"fuzz": dd.N()}, dd.N())
+}
